@@ -610,10 +610,13 @@ class C12(common.Prop):
                    "byte-level round trip of the written file is C01's theorem; C12 proves that Pose.write's checks pass and that the reader's mask equals the pose's"]
 
     def translate(self):
-        return translate_c12.c12_gen()
+        g = dict(translate_c12.c12_gen())
+        import translate_py
+        g.update(dict(translate_py.codec_gen()))        # writer and reader of the final round trip
+        return g
 
     def translate_outputs(self):
-        return ["gen/Gen_C12.v"]
+        return ["gen/Gen_C12.v", "gen/Gen_Codec.v"]
 
     def setup(self):
         import pose_format  # noqa: F401
